@@ -168,15 +168,18 @@ class Impl:
 class _Tick:
     """Stands in for ``_ReaperThread._stop`` (``wait(tick)`` -> False per tick, then True = stop)."""
 
-    def __init__(self, n: int) -> None:
+    def __init__(self, n: int, jump: float | None = None) -> None:
         self.n = n
         self.k = 0
+        self.jump = jump
 
     def wait(self, timeout: float | None = None) -> bool:
         self.k += 1
         if self.k > self.n:
             return True
         S.point("reaper-tick")
+        if self.jump is not None and self.k == 1:
+            CLK.advance(self.jump)  # time passed while the reaper slept
         return False
 
     def set(self) -> None:
@@ -243,9 +246,9 @@ class Rig:
         self.cap = cap
         self.tainted = False
 
-    def new_reaper(self, ticks: int) -> Any:
+    def new_reaper(self, ticks: int, jump: float | None = None) -> Any:
         rt = self.sticky._ReaperThread(self.registry)
-        rt.__dict__["_stop"] = _Tick(ticks)
+        rt.__dict__["_stop"] = _Tick(ticks, jump)
         self.mw._reaper = rt
         return rt
 
@@ -280,62 +283,87 @@ def _summ(r: Any) -> tuple[int, bool, bool]:
 
 
 def _cfg(reqs: list[str], bound: int, delete: bool = False, ticks: int = 0, adv: float | None = None,
-         shutdown: bool = False, env_cost: int = 0) -> dict[str, Any]:
-    return {"reqs": reqs, "delete": delete, "ticks": ticks, "adv": adv, "shutdown": shutdown, "bound": bound,
-            "env_cost": env_cost}
+         on_tick: bool = False, shutdown: bool = False, env_cost: int = 0, wide: bool = False) -> dict[str, Any]:
+    """One harness.  ``on_tick``: the clock jump happens while the reaper sleeps (right before its first sweep)
+    instead of being a separate environment event.  ``env_cost``: what a switch *to* an environment task
+    (reaper / clock / shutdown) counts against the preemption bound (0 = free).  ``wide``: wide trace window."""
+    return {"reqs": reqs, "delete": delete, "ticks": ticks, "adv": adv, "on_tick": on_tick, "shutdown": shutdown,
+            "bound": bound, "env_cost": env_cost, "wide": wide}
+
+
+W, C = "work", "work_close"
+OVER, UNDER = TTL + 1, TTL - 1
 
 
 def configs(ctx: Ctx) -> list[dict[str, Any]]:
-    W, C = "work", "work_close"
-    over, under = TTL + 1, TTL - 1
     out: list[dict[str, Any]] = []
     if ctx.quick:
-        b = 1
         out += [
-            _cfg([W, W], b),
-            _cfg([W, C], b),
-            _cfg([C, W], b),
-            _cfg([C, C], b),
-            _cfg([W], b, delete=True),
-            _cfg([C], b, delete=True),
-            _cfg([W, W], b, delete=True),
-            _cfg([W], b, ticks=1, adv=over),
-            _cfg([W], b, ticks=1, adv=under),
-            _cfg([W, W], b, adv=over),
-            _cfg([W], b, shutdown=True),
-            _cfg([W, W], b, ticks=1, adv=over),
-            _cfg([W], b, delete=True, ticks=1, adv=over),
-            _cfg([W, C], b, shutdown=True),
-            _cfg([C], b, ticks=1, adv=over),
-            _cfg([W], b, delete=True, shutdown=True),
+            # requests / close_session / DELETE only: bound 1, narrow window
+            _cfg([W, W], 1), _cfg([W, C], 1), _cfg([C, W], 1), _cfg([C, C], 1),
+            _cfg([W], 1, delete=True), _cfg([C], 1, delete=True), _cfg([W, W], 1, delete=True),
+            _cfg([W, C], 1, delete=True),
+            # the same two-task harnesses with the wide window
+            _cfg([W, C], 1, wide=True), _cfg([W], 1, delete=True, wide=True),
+            # TTL expiry: reaper sweep after the clock crossed (one event), clock below the TTL, separate events
+            _cfg([W], 1, ticks=1, adv=OVER, on_tick=True, env_cost=1),
+            _cfg([W], 1, ticks=1, adv=UNDER, on_tick=True, env_cost=1),
+            _cfg([C], 1, ticks=1, adv=OVER, on_tick=True, env_cost=1),
+            _cfg([W, W], 1, ticks=1, adv=OVER, on_tick=True),
+            _cfg([W], 2, ticks=1, adv=OVER, env_cost=1),
+            _cfg([W], 1, delete=True, ticks=1, adv=OVER, on_tick=True, env_cost=1),
+            # inline expiry inside get(): clock event free, one preemption
+            _cfg([W, W], 1, adv=OVER), _cfg([W], 1, delete=True, adv=OVER),
+            # drain + shutdown
+            _cfg([W], 1, shutdown=True), _cfg([W, W], 1, shutdown=True, env_cost=1),
+            _cfg([W, C], 1, shutdown=True, env_cost=1), _cfg([W], 1, delete=True, shutdown=True, env_cost=1),
+            # everything at once, one switch
+            _cfg([W, C], 1, delete=True, ticks=1, adv=OVER, on_tick=True, shutdown=True, env_cost=1),
         ]
         return out
-    b = 2
-    for reqs in ([W, W], [W, C], [C, W], [C, C]):
-        out.append(_cfg(reqs, b))
-        out.append(_cfg(reqs, b, delete=True))
-        out.append(_cfg(reqs, b, ticks=1, adv=over))
-        out.append(_cfg(reqs, b, adv=over))
-        out.append(_cfg(reqs, b, shutdown=True))
+    two = ([W, W], [W, C], [C, W], [C, C])
+    for reqs in two:
+        out.append(_cfg(reqs, 2))
+        out.append(_cfg(reqs, 1, wide=True))
+        out.append(_cfg(reqs, 2, delete=True))
+        out.append(_cfg(reqs, 1, delete=True, wide=True))
+        out.append(_cfg(reqs, 2, ticks=1, adv=OVER, on_tick=True, env_cost=1))
+        out.append(_cfg(reqs, 1, ticks=1, adv=OVER, on_tick=True))
+        out.append(_cfg(reqs, 2, adv=OVER, env_cost=1))
+        out.append(_cfg(reqs, 1, adv=OVER))
+        out.append(_cfg(reqs, 2, shutdown=True, env_cost=1))
+        out.append(_cfg(reqs, 1, shutdown=True))
+        out.append(_cfg(reqs, 2, ticks=1, adv=OVER, env_cost=1))
     for reqs in ([W], [C]):
-        out.append(_cfg(reqs, b, delete=True))
-        out.append(_cfg(reqs, b, delete=True, ticks=2, adv=over))
-        out.append(_cfg(reqs, b, delete=True, ticks=1, adv=under))
-        out.append(_cfg(reqs, b, ticks=2, adv=over, shutdown=True))
-        out.append(_cfg(reqs, b, delete=True, shutdown=True))
-    for reqs in ([W, W, W], [W, W, C], [W, C, W], [C, W, W]):
-        out.append(_cfg(reqs, b))
-    out.append(_cfg([W, W], b, delete=True, ticks=1, adv=over, shutdown=True, env_cost=1))
-    out.append(_cfg([W, C], b, delete=True, ticks=1, adv=over, shutdown=True, env_cost=1))
-    out.append(_cfg([W, W, C], 1, delete=True, ticks=1, adv=over, shutdown=True))
+        out.append(_cfg(reqs, 2, delete=True))
+        out.append(_cfg(reqs, 2, delete=True, wide=True))
+        out.append(_cfg(reqs, 2, ticks=1, adv=OVER))
+        out.append(_cfg(reqs, 2, ticks=2, adv=OVER, env_cost=1))
+        out.append(_cfg(reqs, 2, ticks=1, adv=UNDER))
+        out.append(_cfg(reqs, 2, shutdown=True))
+        out.append(_cfg(reqs, 2, delete=True, ticks=1, adv=OVER, on_tick=True))
+        out.append(_cfg(reqs, 2, delete=True, ticks=1, adv=OVER, env_cost=1))
+        out.append(_cfg(reqs, 2, delete=True, adv=OVER))
+        out.append(_cfg(reqs, 2, delete=True, shutdown=True, env_cost=1))
+        out.append(_cfg(reqs, 2, ticks=1, adv=OVER, on_tick=True, shutdown=True, env_cost=1))
+    for reqs in ([W, W, W], [W, W, C], [W, C, W], [C, W, W], [W, C, C]):
+        out.append(_cfg(reqs, 1))
+        out.append(_cfg(reqs, 1, delete=True))
+        out.append(_cfg(reqs, 1, ticks=1, adv=OVER, on_tick=True, env_cost=1))
+        out.append(_cfg(reqs, 1, shutdown=True, env_cost=1))
+    out.append(_cfg([W, W, W], 2))
+    out.append(_cfg([W, W, C], 2))
+    out.append(_cfg([W, W], 2, delete=True, ticks=1, adv=OVER, on_tick=True, shutdown=True, env_cost=1))
+    out.append(_cfg([W, C], 2, delete=True, ticks=1, adv=OVER, on_tick=True, shutdown=True, env_cost=1))
+    out.append(_cfg([W, W, C], 1, delete=True, ticks=1, adv=OVER, shutdown=True, env_cost=1))
     return out
 
 
 def label(cfg: dict[str, Any]) -> str:
     return (
         "+".join(cfg["reqs"]) + ("+DELETE" if cfg["delete"] else "") + (f"+reaper{cfg['ticks']}" if cfg["ticks"] else "")
-        + (f"+clock{cfg['adv']:g}" if cfg["adv"] is not None else "") + ("+shutdown" if cfg["shutdown"] else "")
-        + f"/b{cfg['bound']}e{cfg['env_cost']}"
+        + (f"+clock{cfg['adv']:g}{'@tick' if cfg['on_tick'] else ''}" if cfg["adv"] is not None else "")
+        + ("+shutdown" if cfg["shutdown"] else "") + f"/b{cfg['bound']}e{cfg['env_cost']}{'w' if cfg['wide'] else 'n'}"
     )
 
 
@@ -366,7 +394,7 @@ def make_setup(cfg: dict[str, Any]):
         world["entry"] = r.registry._entries[world["sid"]]
         if not isinstance(world["entry"].lock, S.CoopRLock):
             raise HarnessError("per-session lock is not cooperative")
-        rt = r.new_reaper(cfg["ticks"])
+        rt = r.new_reaper(cfg["ticks"], cfg["adv"] if cfg["on_tick"] else None)
 
         def request(name: str, kind: str) -> None:
             world["resp"][name] = _summ(r.post(kind, token))
@@ -385,7 +413,7 @@ def make_setup(cfg: dict[str, Any]):
             s.spawn(delete, "D")
         if cfg["ticks"]:
             s.spawn(rt.run, "reaper", env=True)
-        if cfg["adv"] is not None:
+        if cfg["adv"] is not None and not cfg["on_tick"]:
             s.spawn(lambda: CLK.advance(cfg["adv"]), "clock", env=True)
         if cfg["shutdown"]:
             s.spawn(shutdown, "shutdown", env=True)
@@ -405,11 +433,19 @@ def make_setup(cfg: dict[str, Any]):
     return setup
 
 
-TRACE = S.trace_window(
-    ("http/server/_sticky.py", "_SessionRegistry.*"),
-    ("http/server/_sticky.py", "_StickyMiddleware._close_session"),
-    ("http/server/_sticky.py", "_SessionResource.on_delete"),
+_F = "http/server/_sticky.py"
+NARROW = S.trace_window(
+    (_F, "_SessionRegistry.get"), (_F, "_SessionRegistry.close"), (_F, "_SessionRegistry.drain_expired"),
+    (_F, "_SessionRegistry.shutdown"),
 )
+WIDE = S.trace_window(
+    (_F, "_SessionRegistry.*"), (_F, "_StickyMiddleware._close_session"), (_F, "_SessionResource.on_delete"),
+    (_F, "_StickyMiddleware.process_response"), (_F, "_ReaperThread.run"),
+)
+
+
+def window(cfg: dict[str, Any]) -> Any:
+    return WIDE if cfg["wide"] else NARROW
 
 
 def monitor(ev: list[tuple[Any, ...]]) -> list[tuple[str, str]]:
@@ -497,7 +533,7 @@ def run(ctx: Ctx) -> None:
             continue
         st = S.explore(
             ctx, make_setup(cfg), lambda x, cfg=cfg: oracle(ctx, cfg, x), bound=cfg["bound"], label=label(cfg),
-            trace=TRACE, env_cost=cfg["env_cost"],
+            trace=window(cfg), env_cost=cfg["env_cost"],
         )
         ctx.extra["schedules"] += st["schedules"]
         ctx.extra["configs"] += 1
@@ -512,5 +548,5 @@ def run(ctx: Ctx) -> None:
 def replay(ctx: Ctx, case: dict[str, Any]) -> None:
     ctx.extra.update({"close_hooks": 0, "dispatches": 0})
     cfg = case["cfg"]
-    x = S.run_one(make_setup(cfg), case["choices"], None, trace=TRACE, env_cost=cfg["env_cost"])
+    x = S.run_one(make_setup(cfg), case["choices"], None, trace=window(cfg), env_cost=cfg["env_cost"])
     oracle(ctx, cfg, x)
